@@ -593,6 +593,11 @@ func (s *Sim) dispatch(ev *Event) {
 			return
 		}
 		tx := ev.Tx
+		// a requested transaction that is in the chain by the time the peer's answer arrives
+		// (or that was evicted everywhere) does not re-enter the pool and is not handed over
+		if s.deadTx[tx.Hash()] || n.inChain(tx.Hash()) {
+			return
+		}
 		n.pool[tx.Hash()] = tx
 		n.everHad[tx.Hash()] = true
 		n.call(&Step{Op: OpTx, Tx: tx}, func() { n.d.OnTransaction(tx) })
